@@ -4,7 +4,7 @@ package main
 //
 //	cfg:<plain|zc|concat>,<nocopy>
 //	p:<hex>,<ts>,<caplen>,<len>,<ifidx>   e:<kind>   s:   (start of the next sub-source, concat only)
-//	next start restart grant:n grantall recv:n cancel fin fcan:n
+//	next start restart grant:n grantall recv:n cancel fin fcan:n setopt:nocopy=0|1
 //
 // The scripted source hands out its history through a gate (tokens), so that the harness
 // decides when each read of the background goroutine returns; before every action the
@@ -121,6 +121,7 @@ type c16Ret struct {
 	byProducer  bool
 	afterCancel bool // the read returned after the harness had decided to cancel (projection of the select race)
 	afterDone   bool // the read returned after cancel() had returned
+	nocopy      bool // DecodeOptions.NoCopy when the read returned (the packet is decoded with it)
 }
 
 type c16Gate struct {
@@ -136,6 +137,7 @@ type c16Gate struct {
 	inPull   bool // the harness itself is calling NextPacket
 	cancelT  bool // cancel() is about to be called
 	cancelD  bool // cancel() has returned
+	nocopy   bool // current value of ps.DecodeOptions.NoCopy (assigned by the harness only while the producer is quiescent)
 	enteredAfterCancel int
 	log      []c16Ret
 }
@@ -161,7 +163,7 @@ func (g *c16Gate) read() ([]byte, gopacket.CaptureInfo, error) {
 	d, ci, err := g.inner()
 	g.mu.Lock()
 	g.returned++
-	r := c16Ret{byProducer: !pull, afterCancel: g.cancelT, afterDone: g.cancelD}
+	r := c16Ret{byProducer: !pull, afterCancel: g.cancelT, afterDone: g.cancelD, nocopy: g.nocopy}
 	if err == nil {
 		g.pkts++
 		r.pkt = true
@@ -348,6 +350,44 @@ func (c16) Gen(rng *rand.Rand, tier string) []Case {
 		}
 		sc = append(sc, "fin")
 		add(cfg, h, sc)
+		// (c') options assigned at random points, also between two PacketsCtx calls (no Lazy/Pool here:
+		// lazy decoding of a view is outside the model)
+		kind, cfg = c16Cfg0(rng)
+		h = c16History(rng, kind, 8)
+		flip := func() string { return fmt.Sprintf("setopt:nocopy=%d", rng.Intn(2)) }
+		switch rng.Intn(4) {
+		case 0: // pull interface
+			sc = nil
+			for k := 0; k < len(h)+1; k++ {
+				if rng.Intn(3) == 0 {
+					sc = append(sc, flip())
+				}
+				sc = append(sc, "next")
+			}
+		case 1: // the seeded scenario: accepted first call, NoCopy switched, second call
+			if kind == "zc" {
+				cfg[0] = "cfg:zc,0"
+			}
+			sc = []string{"start", fmt.Sprintf("grant:%d", rng.Intn(4)), "setopt:nocopy=1", "restart", fmt.Sprintf("grant:%d", 1+rng.Intn(3)), fmt.Sprintf("recv:%d", rng.Intn(3)), flip(), "restart", "fin"}
+		case 2:
+			sc = []string{flip(), "start", flip(), "restart", "grantall", "fin"}
+		default:
+			sc = []string{"start"}
+			for k := 2 + rng.Intn(6); k > 0; k-- {
+				switch rng.Intn(6) {
+				case 0, 1:
+					sc = append(sc, fmt.Sprintf("grant:%d", 1+rng.Intn(3)))
+				case 2:
+					sc = append(sc, fmt.Sprintf("recv:%d", 1+rng.Intn(3)))
+				case 3:
+					sc = append(sc, "restart")
+				default:
+					sc = append(sc, flip())
+				}
+			}
+			sc = append(sc, "fin")
+		}
+		add(cfg, h, sc)
 		// (d) cancellation at a quiescent point
 		kind, cfg = c16Cfg(rng)
 		h = c16History(rng, kind, 8)
@@ -461,6 +501,7 @@ type c16Run struct {
 	nPull     int // packets handed over by NextPacket
 	nChan     int // packets received from the channel
 	closedSeen bool
+	guardBypassed bool // a PacketsCtx call succeeded on a zero-copy source with NoCopy on
 	finDone   bool
 	fcanDone  bool
 	stuck     bool
@@ -741,7 +782,7 @@ func (c16) Run(c Case) Result {
 			}
 		}
 	}
-	r.gate = &c16Gate{}
+	r.gate = &c16Gate{nocopy: r.nocopy}
 	r.gate.cond = sync.NewCond(&r.gate.mu)
 	var opts []gopacket.PacketSourceOption
 	if r.nocopy {
@@ -838,6 +879,14 @@ func (c16) Run(c Case) Result {
 				}()
 				ch = r.ps.PacketsCtx(ctx)
 			}()
+			unsafeNow := r.kind == "zc" && r.nocopy
+			if panicked && !unsafeNow {
+				res.Oracle = append(res.Oracle, "C16:guard\tPacketsCtx refused although the source is not zero-copy with NoCopy")
+			}
+			if !panicked && unsafeNow {
+				r.guardBypassed = true
+				res.Oracle = append(res.Oracle, "C16:guard\tzero-copy source with NoCopy accepted by a PacketsCtx call ("+name+")")
+			}
 			switch {
 			case panicked:
 				startPanicked = true
@@ -848,10 +897,20 @@ func (c16) Run(c Case) Result {
 			default:
 				r.ch = ch
 				obs(name + "=ok")
-				if r.kind == "zc" && r.nocopy {
-					res.Oracle = append(res.Oracle, "C16:guard\tzero-copy source with NoCopy accepted by PacketsCtx")
-				}
 			}
+		case "setopt":
+			// the public field; assigned only while the background reader cannot move
+			r.sync()
+			v := arg == "nocopy=1"
+			if v != r.nocopy {
+				r.tags["option-flip"] = true
+			}
+			r.gate.mu.Lock()
+			r.nocopy = v
+			r.gate.nocopy = v
+			r.ps.DecodeOptions.NoCopy = v
+			r.gate.mu.Unlock()
+			obs("setopt")
 		case "grant", "grantall":
 			if r.ch == nil {
 				obs("nostart")
@@ -1045,7 +1104,11 @@ func (r *c16Run) oracle() {
 			break
 		}
 		d := r.deliv[k]
-		if string(d.snap) != string(rt.data) {
+		// decoded NoCopy from the reused buffer: a view, overwritten by the next read (by design on the
+		// pull interface; on the channel interface only reachable by assigning the option after the start)
+		view := r.kind == "zc" && rt.nocopy
+		viaChan := k >= r.nPull
+		if !(view && viaChan) && string(d.snap) != string(rt.data) {
 			fail("C16:order", "packet %d handed over has bytes %x, the source returned %x", k, d.snap, rt.data)
 		}
 		m := d.p.Metadata()
@@ -1057,10 +1120,10 @@ func (r *c16Run) oracle() {
 			fail("C16:truncated", "packet %d truncated=%v want %v", k, m.Truncated, wantTr)
 		}
 		// immutability: copying decode or a source that hands out fresh arrays
-		if !(r.kind == "zc" && r.nocopy) && string(d.p.Data()) != string(rt.data) {
+		if !view && string(d.p.Data()) != string(rt.data) {
 			fail("C16:immutable", "packet %d changed after delivery: %x, was %x", k, d.p.Data(), rt.data)
 		}
-		if r.kind == "zc" && r.nocopy && r.nChan > 0 && string(d.p.Data()) != string(rt.data) {
+		if view && viaChan && r.guardBypassed && string(d.p.Data()) != string(rt.data) {
 			fail("C16:immutable", "packet %d delivered on the channel from a zero-copy source was overwritten: %x, was %x", k, d.p.Data(), rt.data)
 		}
 		k++
